@@ -95,6 +95,9 @@ StepVerdict(e, fValue, fSol, fRt) ==
 
 (* e: answers of used rule objects vs brand-new rule objects on the identical tree (C06) *)
 ReprobeVerdict(e) == IF e.used = e.fresh THEN {} ELSE {"answer_depends_on_rule_history"}
+\* a result that was handed out stays what it was: every object of an earlier result tree (e.hb, taken when it was produced) is
+\* unchanged (e.ha) after all the later calls of the same session on OTHER trees
+IntactVerdict(e) == IF e.ha.n >= e.hb.n /\ SameArrays(e.hb, e.ha, 1..e.hb.n) THEN {} ELSE {"earlier_result_changed_by_later_calls"}
 
 RECURSIVE AllPrintable(_)
 AllPrintable(t) == CASE t.k = "c" -> Printable(t) [] t.k = "v" -> t.id < 128 [] IsUn(t.k) -> AllPrintable(t.c) [] OTHER -> AllPrintable(t.l) /\ AllPrintable(t.r)
